@@ -373,3 +373,167 @@ Example C15_seq_lookup_discard_lookup :
      = [Ok t0; Ok (mktab [s0; s2] [p] [[1]; [3]]); Ok (mktab [s2; s0] [p] [[3]; [1]])].
 Proof. exact seq_lookup_discard_lookup_example. Qed.
 Print Assumptions C15_seq_lookup_discard_lookup.
+
+(* ======================================================================================
+   standardize: the exact model, what the checkers' (deviation, variance) pair means, and
+   soundness of the two standardize checkers (C15_Std).  The theorems that mention real
+   numbers depend on the three axioms of Coq's Reals library (c15.py ALLOWED_AXIOMS), the
+   others are closed.
+   ====================================================================================== *)
+From HV Require Import StatsR C15_Std.
+From Coq Require Import QArith Qabs Reals Qreals.
+Open Scope Z_scope.
+
+(* exact rationals: the deviations of a non-empty column sum to 0 ... *)
+Theorem C15_qdev_sum_zero : forall l : list Q, l <> [] -> (qsum (qdev l) == 0)%Q.
+Proof. exact qdev_sum_zero_lemma. Qed.
+Print Assumptions C15_qdev_sum_zero.
+
+(* ... their squares sum to n * var ... *)
+Theorem C15_qvar_is_mean_square_deviation : forall l : list Q, l <> [] ->
+  (qsum (map qsq (qdev l)) == qlen l * qvar l)%Q.
+Proof. exact qvar_sum_sq_lemma. Qed.
+Print Assumptions C15_qvar_is_mean_square_deviation.
+
+(* ... and deviation i belongs to cell i (nothing is reordered or dropped) *)
+Theorem C15_qdev_cellwise : forall (l : list Q) (i : nat), (i < length l)%nat ->
+  length (qdev l) = length l /\ (nth i (qdev l) 0 == nth i l 0 - qmean l)%Q.
+Proof. exact qdev_cellwise_lemma. Qed.
+Print Assumptions C15_qdev_cellwise.
+
+(* a constant column has variance exactly 0 over Q (the float variance need not be 0: corpus
+   standardize_constant) and its model is all zeros *)
+Theorem C15_constant_column_variance_zero : forall (c : Q) (l : list Q),
+  (forall x, In x l -> (x == c)%Q) ->
+  (qvar l == 0)%Q /\ qstandardize l = map (fun _ => (0%Q, 1%Q)) l.
+Proof. exact constant_column_variance_zero_lemma. Qed.
+Print Assumptions C15_constant_column_variance_zero.
+
+(* the exact model (cells dev_i / sqrt var in Q(sqrt var)) denotes the real-number
+   standardisation of StatsR - the function C09_standardize_mean0_var1 is about - for EVERY
+   rational column ... *)
+Theorem C15_qstandardize_denotes_rstandardize : forall l : list Q,
+  map denote (qstandardize l) = rstandardize (map Q2R l).
+Proof. exact qstandardize_denotes_lemma. Qed.
+Print Assumptions C15_qstandardize_denotes_rstandardize.
+
+(* ... so a column with positive variance is standardised to mean 0 and variance 1 ... *)
+Theorem C15_qstandardize_mean0_var1 : forall l : list Q,
+  (0 < qvar l)%Q ->
+  rmean (map denote (qstandardize l)) = 0%R /\ rvar (map denote (qstandardize l)) = 1%R.
+Proof. exact qstandardize_mean0_var1_lemma. Qed.
+Print Assumptions C15_qstandardize_mean0_var1.
+
+(* ... and a constant one to all zeros *)
+Theorem C15_qstandardize_constant_zero : forall (c : Q) (l : list Q),
+  (forall x, In x l -> (x == c)%Q) -> map denote (qstandardize l) = map (fun _ => 0%R) l.
+Proof. exact qstandardize_constant_zero_lemma. Qed.
+Print Assumptions C15_qstandardize_constant_zero.
+
+(* the pair (dev, var) the checkers compare with characterises the standardised column: ANY real
+   column z with z_i^2 var = dev_i^2 and sign z_i = sign dev_i is the model column, is
+   rstandardize of the input, and has mean 0 and variance 1 *)
+Theorem C15_zcheck_exact_characterises : forall (l : list Q) (zs : list R),
+  (0 < qvar l)%Q ->
+  Forall2 (fun d z => (z * z * Q2R (qvar l) = Q2R d * Q2R d /\ (0 <= z <-> 0 <= Q2R d))%R) (qdev l) zs ->
+  zs = map denote (qstandardize l) /\ zs = rstandardize (map Q2R l)
+  /\ rmean zs = 0%R /\ rvar zs = 1%R.
+Proof. exact zcheck_exact_characterises_lemma. Qed.
+Print Assumptions C15_zcheck_exact_characterises.
+
+(* its hypotheses are satisfiable: the column (0, 1) and z = (-1, 1) *)
+Example C15_zcheck_exact_satisfiable :
+  (0 < qvar [0%Q; 1%Q])%Q
+  /\ Forall2 (fun d z => (z * z * Q2R (qvar [0%Q; 1%Q]) = Q2R d * Q2R d /\ (0 <= z <-> 0 <= Q2R d))%R)
+             (qdev [0%Q; 1%Q]) [(-1)%R; 1%R].
+Proof. exact zcheck_exact_satisfiable_example. Qed.
+Print Assumptions C15_zcheck_exact_satisfiable.
+
+(* the toleranced cell check spelled out over Q ... *)
+Theorem C15_zcheck_meaning : forall v d z : Q, zcheck v d z = true ->
+  (Qabs (qsq z * v - qsq d) <= tol9 * (qsq d + v))%Q
+  /\ ((qsq d <= tol9 * v)%Q \/ qsgn z = qsgn d).
+Proof. exact zcheck_meaning_lemma. Qed.
+Print Assumptions C15_zcheck_meaning.
+
+(* ... and against the model cell w = dev / sqrt var over the reals: |z^2 - w^2| <= 1e-9 (w^2 + 1) *)
+Theorem C15_zcheck_real_meaning : forall v d z : Q, (0 < v)%Q -> zcheck v d z = true ->
+  (Rabs (Q2R z * Q2R z - denote (d, v) * denote (d, v)) <= Q2R tol9 * (denote (d, v) * denote (d, v) + 1))%R.
+Proof. exact zcheck_real_meaning_lemma. Qed.
+Print Assumptions C15_zcheck_real_meaning.
+
+(* soundness of `holds` of the relation standardize (and of the standardize step of opseq) *)
+Theorem C15_standardize_holds_sound : forall (xs zs : list Z) (qx : list Q),
+  column_prop_ok xs zs = true -> map bits2q xs = map Some qx ->
+  (qx <> [] -> constq qx = true ->
+     Forall (fun b => exists q, bits2q b = Some q /\ (q == 0)%Q) zs)
+  /\ (constq qx = false -> well_cond qx = true ->
+      exists qz, map bits2q zs = map Some qz /\ length qz = length qx
+                 /\ (Qabs (qmean qz - 0) <= tol9 * 1)%Q /\ (Qabs (qvar qz - 1) <= tol9 * 1)%Q).
+Proof. exact column_prop_ok_sound_lemma. Qed.
+Print Assumptions C15_standardize_holds_sound.
+
+(* soundness of `agree` of the relation standardize (the exact model, cell by cell) *)
+Theorem C15_standardize_agree_sound : forall xs zs : list Z,
+  column_model_ok xs zs = true ->
+  length xs = length zs
+  /\ (constant_col xs = true -> Forall (fun b => b = 0) zs)
+  /\ (constant_col xs = false -> forall qx, map bits2q xs = map Some qx -> well_cond qx = true ->
+        exists qz, map bits2q zs = map Some qz
+                   /\ Forall2 (fun d z => zcheck (qvar qx) d z = true) (qdev qx) qz).
+Proof. exact column_model_ok_sound_lemma. Qed.
+Print Assumptions C15_standardize_agree_sound.
+
+(* ======================================================================================
+   the suffix counter on many duplicates; the compact literals of the correspondence
+   ====================================================================================== *)
+
+(* n + 1 columns with the same name are written as name, name-1, ..., name-n (any n: the
+   counter's decimal width changes at 10, 100, 1000 without collision) *)
+Theorem C15_unique_names_many_duplicates : forall (a : name) (n : nat),
+  unique_names (repeat a (S n)) = a :: map (suffixed a) (zseq_nat 1 n).
+Proof. exact unique_names_repeat_lemma. Qed.
+Print Assumptions C15_unique_names_many_duplicates.
+
+Example C15_suffix_counter_two_digits :
+  unique_names (repeat a_ 11) = a_ :: map (suffixed a_) [1; 2; 3; 4; 5; 6; 7; 8; 9; 10]
+  /\ unique_names (repeat a_ 11 ++ [a10]) = unique_names (repeat a_ 11) ++ [suffixed a10 1]
+  /\ unique_names (a10 :: repeat a_ 11)
+     = a10 :: a_ :: map (suffixed a_) [1; 2; 3; 4; 5; 6; 7; 8; 9; 11]
+  /\ dec 10 = [49; 48] /\ dec 100 = [49; 48; 48].
+Proof. exact suffix_counter_two_digits_example. Qed.
+Print Assumptions C15_suffix_counter_two_digits.
+
+(* what the generators used in long case literals denote *)
+Theorem C15_zseq_spec : forall a n : Z, 0 <= n ->
+  lenZ (zseq a n) = n /\ forall i, 0 <= i < n -> nthZ (zseq a n) i = Some (a + i).
+Proof. exact zseq_spec_lemma. Qed.
+Print Assumptions C15_zseq_spec.
+
+Theorem C15_zrep_spec : forall v n : Z, zrep v n = repeat v (Z.to_nat n) /\ Forall (eq v) (zrep v n).
+Proof. exact zrep_spec_lemma. Qed.
+Print Assumptions C15_zrep_spec.
+
+Theorem C15_gnames_spec : forall (p : name) (a n : Z),
+  length (gnames p a n) = Z.to_nat n
+  /\ forall i, (i < Z.to_nat n)%nat -> nth i (gnames p a n) [] = p ++ dec (a + Z.of_nat i).
+Proof. exact gnames_spec_lemma. Qed.
+Print Assumptions C15_gnames_spec.
+
+Theorem C15_by_cols_spec : forall (n : Z) (cols : list (list Z)),
+  Forall (fun c => length c = Z.to_nat n) cols ->
+  length (by_cols n cols) = Z.to_nat n
+  /\ forall i, (i < Z.to_nat n)%nat -> nth i (by_cols n cols) [] = map (fun c => nth i c 0) cols.
+Proof. exact by_cols_spec_lemma. Qed.
+Print Assumptions C15_by_cols_spec.
+
+(* soundness of `holds` of the relation roundtrip: same samples in order; as many names, pairwise
+   distinct, each the input name or that name followed by "-<digits>", unchanged if the input names
+   were distinct; every cell bit-identical (all NaNs identified) *)
+Theorem C15_roundtrip_holds_sound : forall c : rtcase, holds_rt c = true ->
+  exists nm dt, rt_obs c = Ok (nm, rt_samples c, dt)
+    /\ length nm = length (rt_names c) /\ NoDup nm /\ (NoDup (rt_names c) -> nm = rt_names c)
+    /\ Forall2 (fun a b => derived a b = true) (rt_names c) nm
+    /\ Forall2 (Forall2 same_bits) (rt_data c) dt.
+Proof. exact holds_rt_sound_lemma. Qed.
+Print Assumptions C15_roundtrip_holds_sound.
